@@ -12,7 +12,7 @@
      maximum_matching      is_matching and no matching table (of any length) is larger  *)
 From Coq Require Import List Arith Permutation.
 Import ListNotations.
-From RV Require Import Model.Cover Proofs.CoverProofs.
+From RV Require Import Model.Cover Gen.CoverAdj Proofs.CoverProofs.
 
 (* (1) the Koenig construction from ANY table that passes the code's own assertions is a cover
        (no hypothesis on ml at all; nU, nV only have to enclose the edges) *)
@@ -139,6 +139,28 @@ Theorem C20_one_step_bond_hungarian_partial :
 Proof. exact select_rows_cols_hungarian. Qed.
 Print Assumptions C20_one_step_bond_hungarian_partial.
 
+(* Gen/CoverAdj.v is GENERATED on every run from the statements of _decompose_graph that build `bigraph`
+   (tx/coveradj.py, fail-closed: the adjacency list of vertex i must be the plain slice
+   M.indices[M.indptr[i]:M.indptr[i+1]], no dtype cast).  With labels in unbounded nat the graph handed to the
+   cover routine IS the incidence matrix: *)
+Theorem C20_bigraph_is_incidence_matrix :
+  forall indices indptr n u v,
+    In v (nbrs (bigraph_of_sparse indices indptr n) u) <-> u < n /\ In v (sparse_slice indices indptr u).
+Proof. exact bigraph_is_incidence_matrix. Qed.
+Print Assumptions C20_bigraph_is_incidence_matrix.
+
+(* hence a cover of `bigraph` touches every entry of the sparse matrix, and the computed one is minimum among
+   all row/column sets doing so -- for any number of distinct partial terms (no 2^16 bound) *)
+Theorem C20_decompose_graph_cover_touches_every_entry :
+  forall rot indices indptr n, is_rot rot ->
+  exists cu cv, vertex_cover_hungarian rot (bigraph_of_sparse indices indptr n) = Some (cu, cv) /\
+    (forall i j, i < n -> In j (sparse_slice indices indptr i) -> In i cu \/ In j cv) /\
+    (forall cu' cv', NoDup cu' -> NoDup cv' ->
+       (forall i j, i < n -> In j (sparse_slice indices indptr i) -> In i cu' \/ In j cv') ->
+       length cu + length cv <= length cu' + length cv').
+Proof. exact decompose_graph_cover_touches_every_entry. Qed.
+Print Assumptions C20_decompose_graph_cover_touches_every_entry.
+
 (* ------------------------------------------------------------------ non-vacuity *)
 (* schedules exist, including a non-trivial one *)
 Example C20_ex_rot : is_rot no_rot /\ is_rot (fun _ l => rev l).
@@ -183,6 +205,13 @@ Proof. vm_compute. reflexivity. Qed.
 Example C20_ex_orientation :
   select_rows_cols (vertex_cover_hungarian no_rot) [[0; 1; 2]; [0]; [0]; [0]] 3 = Some ([0], [0]) /\
   select_rows_cols (vertex_cover_hungarian no_rot) [[0; 1; 2; 3]; [0]] 4 = Some ([0; 1], []).
+Proof. vm_compute. split; reflexivity. Qed.
+
+(* a 2 x 13 sparse matrix in CSR form (rows [0;4;12] and [12]): bigraph is its adjacency, labels unchanged
+   (the theorems above are for labels of any size; unary nat keeps the executable example small) *)
+Example C20_ex_sparse :
+  bigraph_of_sparse [0; 4; 12; 12] [0; 3; 4] 2 = [[0; 4; 12]; [12]] /\
+  vertex_cover_hungarian no_rot (bigraph_of_sparse [4; 12; 12] [0; 2; 3] 2) = Some ([0; 1], []).
 Proof. vm_compute. split; reflexivity. Qed.
 
 (* model-level TEST (not part of the proof, the theorems above are unbounded): on all 4096+512+...
